@@ -15,6 +15,7 @@ TIE_EXTRA = {
                      "compose_grammar_parse_deparse", "compose_grammar_assignment_total", "compose_grammar_roundtrip_int",
                      "compose_grammar_parsed_is_object", "compose_text_parses", "compose_request_text_parses",
                      "compose_request_text_printed", "compose_binary_text", "compose_matmul_text", "compose_methods_text",
+                     "compose_format_text_parses", "compose_binary_format", "compose_matmul_format",
                      "compose_cli_conversions", "compose_cli_parsers_total", "compose_cli_request_eq",
                      "compose_cli_effective", "compose_cli_all_dense"],
         "source": "expression/_parser.py + expression/ast.py (Assignment.__post_init__) + tensor.py (operators) + "
